@@ -62,7 +62,7 @@ func (p *Prog) cfgName() string {
 	if p.Tags == "" {
 		return "default"
 	}
-	return "tags=" + p.Tags
+	return p.Tags
 }
 
 func (c *Ctx) ok(construct, pos, detail string, extra ...func(*Ob)) {
